@@ -143,24 +143,30 @@ def strip_lean_comments(text):
     return ''.join(out)
 
 
+def _theorem_files():
+    """every file of lean/Rbql/Theorems/ that is imported from the build roots (Rbql.lean / RbqlGen.lean)"""
+    root = _roots_text()
+    d = LEAN_DIR / 'Rbql' / 'Theorems'
+    return [p for p in sorted(d.glob('*.lean')) if re.search(r'^import\s+Rbql\.Theorems\.%s\s*$' % re.escape(p.stem), root, re.M)]
+
+
 def theorem_names(prop):
-    """Property theorems = every `theorem Cxx_…` of lean/Rbql/Theorems/<prop>.lean."""
-    p = LEAN_DIR / 'Rbql' / 'Theorems' / (prop + '.lean')
-    if not p.exists():
-        return []
-    if not re.search(r'^import\s+Rbql\.Theorems\.%s\s*$' % prop, _roots_text(), re.M):
-        return []
-    txt = strip_lean_comments(p.read_text())
-    return re.findall(r'^theorem\s+(' + prop + r'_\w+)', txt, re.M)
+    """Property theorems = every `theorem Cxx_…` of the files of lean/Rbql/Theorems/ that are part of the build
+    (Cxx.lean itself, and later files such as C20b.lean or Extra.lean that need proofs importing the earlier theorem files)."""
+    out = []
+    for p in _theorem_files():
+        txt = strip_lean_comments(p.read_text())
+        out += re.findall(r'^theorem\s+(' + prop + r'_\w+)', txt, re.M)
+    return out
 
 
 def all_theorems():
     res = {}
-    d = LEAN_DIR / 'Rbql' / 'Theorems'
-    root = _roots_text()
-    for p in sorted(d.glob('C*.lean')):
-        if re.search(r'^import\s+Rbql\.Theorems\.%s\s*$' % p.stem, root, re.M):   # only what is part of the build
-            res[p.stem] = theorem_names(p.stem)
+    for i in range(1, 21):
+        prop = 'C%02d' % i
+        names = theorem_names(prop)
+        if names:
+            res[prop] = names
     return res
 
 
